@@ -4,6 +4,7 @@ import (
 	"bytes"
 	"encoding/json"
 	"fmt"
+	"sort"
 	"testing"
 
 	cose "github.com/veraison/go-cose"
@@ -35,7 +36,14 @@ func checkC02Constructed(c c02ConCase) error {
 	if len(r.libTBS) != len(r.refTBS) {
 		return finding("tbs-count", "library made %d signing calls, reference %d", len(r.libTBS), len(r.refTBS))
 	}
-	for where, want := range r.refTBS {
+	var all [][]byte
+	wheres := make([]string, 0, len(r.refTBS))
+	for where := range r.refTBS {
+		wheres = append(wheres, where)
+	}
+	sort.Strings(wheres)
+	for _, where := range wheres {
+		want := r.refTBS[where]
 		got, ok := r.libTBS[where]
 		if !ok {
 			return finding("tbs-missing", "no signing call recorded for %s", where)
@@ -43,9 +51,10 @@ func checkC02Constructed(c c02ConCase) error {
 		if !bytes.Equal(got, want) {
 			return finding("tbs-mismatch", "%s: ToBeSigned differs from the RFC structure\n got=%x\nwant=%x", where, got, want)
 		}
-		stats.NTBytes(got)
+		all = append(all, got)
 		classifyTBS(where, got)
 	}
+	stats.NTBytes(all...)
 	// metamorphic: tagged vs untagged message, and nil vs empty external data,
 	// hand the signer identical bytes
 	if c.Spec.Kind != refcose.KSign {
@@ -149,6 +158,7 @@ func checkC02Decoded(c wireCase) error {
 		return finding("spy-verify-error", "Verify with accepting spy verifiers failed: %v", err)
 	}
 	noncanon := len(rc.DeterminismIssues(env.Root)) > 0
+	var ntParts [][]byte
 	for i, sv := range spies {
 		if sv.NCalls() != 1 {
 			return finding("verifier-calls", "verifier %d called %d times", i, sv.NCalls())
@@ -183,8 +193,11 @@ func checkC02Decoded(c wireCase) error {
 			noncanon = true
 		}
 		if noncanon {
-			stats.NTBytes(got.Content)
+			ntParts = append(ntParts, got.Content)
 		}
+	}
+	if len(ntParts) > 0 {
+		stats.NTBytes(ntParts...)
 	}
 	// the tag contributes nothing: the same body decoded by the other Sign1
 	// decoder yields the same bytes
